@@ -181,6 +181,7 @@ fn on_child(id: Id, child: usize, tag: &mut Tag) {
                 let retired = k.child_retired;
                 let retired_now = k.retired_this_dispatch;
                 let n = k.children.len();
+                let mut timer_deadline: Option<u64> = None;
                 let ok = match k.children.get_mut(child) {
                     Some(ChildM::Ping { pending, .. }) => std::mem::replace(pending, false),
                     Some(ChildM::Sock { own, written, .. }) => {
@@ -191,6 +192,7 @@ fn on_child(id: Id, child: usize, tag: &mut Tag) {
                     Some(ChildM::Timer { deadline, fired }) => {
                         let ok = !*fired && deadline.map(|d| d <= now).unwrap_or(false);
                         *fired = true;
+                        timer_deadline = *deadline;
                         ok
                     }
                     None => false,
@@ -217,6 +219,20 @@ fn on_child(id: Id, child: usize, tag: &mut Tag) {
                     return;
                 }
                 sim.rule_ok(&["C01"], 15);
+                // timers due in the same dispatch fire in deadline order, whoever holds them
+                if let Some(d) = timer_deadline {
+                    let mut st = sim.st.borrow_mut();
+                    let prev = st.timer_fire_deadlines.last().copied();
+                    st.timer_fire_deadlines.push(d);
+                    drop(st);
+                    if let Some(p) = prev {
+                        if p > d {
+                            sim.violate("timer.order", vec!["composite_child".into()], format!("the timer child of composite source {} (deadline {}) fired after a timer with deadline {} in the same dispatch", id, d, p));
+                            return;
+                        }
+                    }
+                    sim.rule_ok(&["C05"], 42);
+                }
             }
         }
     }
